@@ -327,7 +327,8 @@ func c17(r *Run) {
 			if _, fromSwap := loadOfField(ld, "ShardQueue", "swap"); !fromSwap {
 				continue
 			}
-			ss := &Search{Fn: worker, Stop: func(i ssa.Instruction) bool { return isCall(i, qunlock) }}
+			// within one critical section: a store of q.swap made outside the shard lock (the spare is worker-private) is fine
+			ss := &Search{Fn: worker, Stop: func(i ssa.Instruction) bool { return isCall(i, qunlock) || isCall(i, qlock) }}
 			wit := ss.Find(startsAfter(swapStores), isIns(ld), false)
 			r.Visited += ss.Visited
 			r.obW("C17.R3:shard-gets-the-spare-buffer", "the empty slice left in a drained shard is cut from the worker's spare buffer as it was before this swap - not from the buffer just taken out of the shard, which the worker is about to walk without the lock while Add appends into the shard", worker, ins, wit, "q.swap is read for the shard before q.swap is overwritten in the same critical section")
